@@ -204,6 +204,27 @@ def _case_chunk(recs):
                                   "what": "%s: object parsed from %r re-serialises to %r, and parse%s of that gives %s instead of an equal object" % (
                                       r["n"], text, real_text, "" if e == "parse" else "." + e, ("raises " + str(back)) if tag == "exc" else repr(back)),
                                   "n": r["n"], "text": text, "text2": real_text})
+        # ---- ... through EVERY accessor by which the object states (exactly) or prints its text
+        for rs in r["reser"]:
+            val = objs.get(json.dumps(rs["o"], sort_keys=True))
+            if val is None or rs["o"]["k"] == "script":
+                continue
+            want_text = nets.text_of(rs["t"])
+            okind = rs["o"]["k"] + (":" + rs["o"]["s"] if rs["o"]["s"] else "") + (":prv" if rs["o"]["p"] else ":pub" if rs["o"]["k"] in KEY_CATS else "")
+            shown = [want_text] + [nets.ev_public_half(h) for h in rs["half"]]
+            for acc, kw, tag, got in nets.stated_texts(val, rs["o"]["p"], rs["via"]):
+                nev += 1
+                # (an accessor that is not told which half to state may state the public one)
+                if tag != "ok" or (got != want_text if kw or not rs["half"] else got not in shown):
+                    fails.append({"key": "C18|reserialise|obj=%s|via=%s|%s" % (okind, acc, "exc:" + str(got) if tag != "ok" else "text-differs"),
+                                  "what": "object parsed from %r on %s states its text through %s() as %r; the rules give %r" % (text, r["n"], acc, got, want_text),
+                                  "n": r["n"], "text": text, "accessor": acc})
+            for acc, tok in nets.printed_texts(val, rs["printers"], (rs["t"]["f"],)):
+                nev += 1
+                if tok not in shown:
+                    fails.append({"key": "C18|reserialise|obj=%s|via=%s|%s" % (okind, acc, "exc" if tok is None else "prints-other-text"),
+                                  "what": "object parsed from %r on %s prints %r in its %s; its text by the rules is %r" % (text, r["n"], tok, acc, want_text),
+                                  "n": r["n"], "text": text, "accessor": acc})
         for rs in r["reparse"]:
             # seeds and electrum wallets: their own text API, parsed again, must give the same key material
             val = None
@@ -301,7 +322,7 @@ def _real_texts(rnd, sym, N, tbl):
         out.append(("xpub", b.hwif()))
         out.append(("xprv", b.subkey(1).hwif(as_private=True)))
     out.append(("seed", "H:" + ms.hex()))
-    out.append(("seed", "P:" + "".join(rnd.choice("abc xyz") for _ in range(5))))
+    out.append(("seed", "P:" + "".join(rnd.choice("abc xyz:") for _ in range(5))))
     out.append(("electrum", "E:" + (se.to_bytes(32, "big")).hex()))
     out.append(("electrum", "E:" + pt[0].to_bytes(32, "big").hex() + pt[1].to_bytes(32, "big").hex()))
     h = bytes(rnd.randrange(256) for _ in range(32))
@@ -404,6 +425,9 @@ def _mutate(rnd, kind, text, sym, tbl, alltbl):
             rest = "00" * (len(rest) // 2)
         elif m < 0.8:
             rest = "ff" * (len(rest) // 2)
+        elif m < 0.9:     # the separator again, somewhere in the rest
+            i = rnd.randrange(len(rest) + 1)
+            rest = rest[:i] + ":" + rest[i:]
         else:
             tag = rnd.choice(["X", "H", "E", "P"])
         return tag + ":" + rest
